@@ -90,11 +90,28 @@ Definition tags_on (q : Z) (l : list oentry) : list Z := map oe_tag (filter (is_
 Definition want_anc_tags (cycles : Z) : list Z :=
   T_HERALDED :: (if cycles =? 0 then [T_FINAL] else repeat T_PARITY (Z.to_nat cycles)).
 
+(* LibBuild_chain_n_meas / LibBuild_chain_n_ops as numbers: chain of distance d, k prepared ancilla states *)
+Definition chain_meas_formula (d cycles : Z) : Z := (2 * d - 1) + (if cycles =? 0 then 1 else cycles) * (d - 1) + d.
+Definition chain_ops_formula (d k cycles : Z) : Z :=
+  if cycles =? 0 then 9 * d + k - 2 else 16 * d + k - 2 + 11 * d * (cycles - 1) + Z.max 0 (cycles - 3).
+Definition count_ok (c : case) (cycles : Z) (u : lobs) : bool :=
+  match k_src c with
+  | SrcChain len =>
+      let d := (len + 1) / 2 in
+      let k := Z.of_nat (List.length (k_anc c)) in
+      if (2 <=? d) && (0 <=? cycles) && (Z.of_nat (List.length (k_init c)) =? d) && (k <=? d - 1)
+      then (Z.of_nat (List.length (filter (fun o => oe_cls o =? C_DispersiveMeasure) (lo_ops u))) =? chain_meas_formula d cycles)
+           && (if k_refocus c then Z.of_nat (List.length (lo_ops u)) =? chain_ops_formula d k cycles else true)
+      else true
+  | _ => true
+  end.
+
 Definition spec_ok (c : case) : bool :=
   match k_ctor c, k_desc c, lc_unrolled (k_lib c) with
   | KRep cycles, Some Dobj, Some u =>
       forallb (fun a => list_eqb Z.eqb (tags_on a (lo_ops u)) (want_anc_tags cycles)) (r_anc Dobj)
       && forallb (fun q => list_eqb Z.eqb (tags_on q (lo_ops u)) [T_HERALDED; T_FINAL]) (r_data Dobj)
+      && count_ok c cycles u
   | KError, _, _ => false
   | _, _, _ => true
   end.
